@@ -205,6 +205,42 @@ func (c *Ctx) freshResults(prefix string, res *types.Tuple) Val {
 	return out
 }
 
+// detResults: results of a deterministic extern as uninterpreted functions of the argument leaves.
+func (c *Ctx) detResults(key string, res *types.Tuple, args []Val) []Val {
+	var sorts, terms []string
+	for _, a := range args {
+		if a.P != nil {
+			c.fail("Go-side pointer passed to deterministic extern %s", key)
+		}
+		if a.T == nil {
+			continue
+		}
+		for i, l := range c.leaves(a.T) {
+			sorts = append(sorts, l.Sort)
+			terms = append(terms, a.L[i])
+		}
+	}
+	var out []Val
+	for i := 0; i < res.Len(); i++ {
+		T := res.At(i).Type()
+		v := Val{T: T}
+		for k, l := range c.leaves(T) {
+			fn := fmt.Sprintf("det_%s_%d_%d", sanitize(key), i, k)
+			c.declFun(fn, strings.Join(sorts, " "), l.Sort)
+			var t string
+			if len(terms) == 0 {
+				t = fn
+			} else {
+				t = app(fn, terms...)
+			}
+			v.L = append(v.L, c.define("det", l.Sort, t))
+		}
+		c.assumeValid("true", v)
+		out = append(out, v)
+	}
+	return out
+}
+
 func packResults(rv []Val, res *types.Tuple) Val {
 	switch len(rv) {
 	case 0:
@@ -265,6 +301,15 @@ func (fr *Frame) callStatic(instr ssa.Instruction, callee *ssa.Function, free []
 			return c.freshResults("noret", resT)
 		}
 		return packResults(rv, resT)
+	}
+	if c.W.isDeterministic(callee) {
+		if r := callee.Signature.Recv(); r != nil && len(args) > 0 && args[0].P == nil && len(args[0].L) == 1 {
+			if _, isPtr := r.Type().Underlying().(*types.Pointer); isPtr && !c.knownNonNil(args[0].L[0]) {
+				fr.safety("nil", "recv."+callee.Name(), R, tNot(tEq(args[0].L[0], "null")))
+			}
+		}
+		c.note("extern modelled as a deterministic function of its arguments (A-IEPURE): %s", key)
+		return packResults(c.detResults(key, resT, args), resT)
 	}
 	c.note("extern without contract (results unconstrained, no heap effect assumed): %s", key)
 	return c.freshResults(sanitize(callee.Name()), resT)
@@ -417,7 +462,7 @@ func (fr *Frame) sprintf(instr ssa.Instruction, key string, args []Val, st *Stat
 	sorts := []string{SStr}
 	ts = append(ts, fmtTerm)
 	for i := 0; i < n; i++ {
-		v := c.loadElem(st, el, va.L[0], app("bvadd", va.L[1], bvU(uint64(i), 64)))
+		v := c.loadElem(st, el, va.L[0], idxAt(va.L[1], bvU(uint64(i), 64)))
 		ts = append(ts, c.fmtArg(v.L[0]))
 		sorts = append(sorts, SStr)
 	}
@@ -521,7 +566,7 @@ func (c *Ctx) copyRows(st *State, guard string, el types.Type, dstBase, dstLo, n
 		if srcStr != "" {
 			src = app("strbyte", srcStr, app("bvadd", srcLo, app("bvsub", "i", dstLo)))
 		} else {
-			src = tSel(tSel(cur, srcBase), app("bvadd", srcLo, app("bvsub", "i", dstLo)))
+			src = tSel(tSel(cur, srcBase), idxAt(srcLo, app("bvsub", "i", dstLo)))
 		}
 		inRange := tAnd(app("bvule", dstLo, "i"), app("bvult", "i", app("bvadd", dstLo, n)))
 		old := tSel(tSel(cur, dstBase), "i")
@@ -562,9 +607,9 @@ func (fr *Frame) appendBuiltin(common *ssa.CallCommon, args []Val, st *State, R 
 		if srcStr != "" {
 			src2 = app("strbyte", srcStr, app("bvsub", "i", s.L[2]))
 		} else {
-			src2 = tSel(tSel(cur, srcBase), app("bvadd", srcOff, app("bvsub", "i", s.L[2])))
+			src2 = tSel(tSel(cur, srcBase), idxAt(srcOff, app("bvsub", "i", s.L[2])))
 		}
-		src1 := tSel(tSel(cur, s.L[0]), app("bvadd", s.L[1], "i"))
+		src1 := tSel(tSel(cur, s.L[0]), idxAt(s.L[1], "i"))
 		body := tIte(app("bvult", "i", s.L[2]), src1, tIte(app("bvult", "i", newLen), src2, c.zeroLeaf(l)))
 		c.assume("true", fmt.Sprintf("(forall ((i (_ BitVec 64))) (! (= (select %s i) %s) :pattern ((select %s i))))", row, body, row))
 		c.setComp(st, key, sort, tStore(cur, nb, row))
@@ -652,8 +697,17 @@ func (fr *Frame) contractCall(instr ssa.Instruction, fc *FuncContract, key strin
 	for k, v := range vars {
 		post[k] = v
 	}
+	var det []Val
+	if callee != nil && c.W.isDeterministic(callee) {
+		det = c.detResults(key, resT, args)
+	}
 	for i, n := range fc.Results {
-		v := c.freshVal("ret_"+n, resT.At(i).Type())
+		var v Val
+		if det != nil {
+			v = det[i]
+		} else {
+			v = c.freshVal("ret_"+n, resT.At(i).Type())
+		}
 		rv = append(rv, v)
 		post[n] = v
 	}
@@ -687,17 +741,39 @@ type conj struct {
 	n int
 }
 
-// splitGoal evaluates a boolean spec expression and splits top-level conjunctions (through pred definitions).
+// splitGoal evaluates a boolean spec expression as a proof goal: top-level conjunctions are split (through pred
+// definitions), implications keep their hypothesis, and top-level universal quantifiers are skolemised with
+// fresh constants (solvers handle an explicit skolem constant much better than a negated quantifier).
 func (c *Ctx) splitGoal(env *Env, e Expr) []conj {
-	var parts []Expr
-	var envs []*Env
-	var rec func(env *Env, e Expr, depth int)
-	rec = func(env *Env, e Expr, depth int) {
+	type part struct {
+		env  *Env
+		e    Expr
+		hyps []string
+	}
+	var parts []part
+	var rec func(env *Env, e Expr, hyps []string, depth int)
+	rec = func(env *Env, e Expr, hyps []string, depth int) {
 		switch x := e.(type) {
 		case *EBin:
 			if x.Op == "&&" {
-				rec(env, x.X, depth)
-				rec(env, x.Y, depth)
+				rec(env, x.X, hyps, depth)
+				rec(env, x.Y, hyps, depth)
+				return
+			}
+			if x.Op == "==>" {
+				h := env.evalBool(x.X)
+				rec(env, x.Y, append(append([]string{}, hyps...), h), depth)
+				return
+			}
+		case *EQuant:
+			if x.Forall {
+				vars := map[string]Val{}
+				for _, b := range x.Vars {
+					rt := c.resolveType(env.pkg, b.T)
+					sk := c.fresh("sk_"+b.Name, c.sortOfRT(rt))
+					vars[b.Name] = Val{T: rt.Go, ST: rt.S, L: []string{sk}}
+				}
+				rec(env.with(vars), x.Body, hyps, depth)
 				return
 			}
 		case *ECall:
@@ -713,17 +789,20 @@ func (c *Ctx) splitGoal(env *Env, e Expr) []conj {
 				}
 				n := *env
 				n.vars = vars
-				rec(&n, p.Body, depth+1)
+				rec(&n, p.Body, hyps, depth+1)
 				return
 			}
 		}
-		parts = append(parts, e)
-		envs = append(envs, env)
+		parts = append(parts, part{env, e, hyps})
 	}
-	rec(env, e, 0)
+	rec(env, e, nil, 0)
 	var out []conj
-	for i, p := range parts {
-		out = append(out, conj{envs[i].evalBool(p), len(parts)})
+	for _, p := range parts {
+		t := p.env.evalBool(p.e)
+		for i := len(p.hyps) - 1; i >= 0; i-- {
+			t = tImp(p.hyps[i], t)
+		}
+		out = append(out, conj{t, len(parts)})
 	}
 	return out
 }
@@ -732,11 +811,20 @@ func (c *Ctx) splitGoal(env *Env, e Expr) []conj {
 // Locations (modifies clauses)
 
 type Loc struct {
-	Kind string   // "field", "elems", "map", "ghost", "all"
+	Kind string   // "field", "elems", "map", "ghost", "fieldset"
 	Keys []Leaf   // component keys with element sort
 	Ref  string   // object / backing / map ref
 	Lo   string   // elems: absolute lower bound (inclusive) or ""
 	Hi   string   // elems: absolute upper bound (exclusive)
+	In   func(r string) string // fieldset: membership condition on the object reference
+}
+
+// refIn: condition under which object reference r is covered by a field(-set) location.
+func (l Loc) refIn(r string) string {
+	if l.Kind == "fieldset" {
+		return l.In(r)
+	}
+	return tEq(r, l.Ref)
 }
 
 // evalLoc resolves a modifies designator in the given environment.
@@ -757,6 +845,55 @@ func (c *Ctx) evalLoc(env *Env, e Expr) []Loc {
 		}
 		c.fail("modifies: %s is not a location", x.Name)
 	case *ESel:
+		// m[_].f : field f of every object stored as a value of map m
+		if ix, ok := x.X.(*EIndex); ok {
+			if id, ok := ix.I.(*EIdent); ok && id.Name == "_" {
+				mv := env.eval(ix.X)
+				if _, isMap := mv.T.Underlying().(*types.Map); isMap {
+					mi := c.mapInfo(mv.T)
+					S := derefT(mi.V)
+					dom := tSel(c.mapDom(env.st, mi), mv.L[0])
+					vals, _, _ := c.mapValComp(env.st, mi, 0)
+					vrow := tSel(vals, mv.L[0])
+					in := func(r string) string {
+						return fmt.Sprintf("(exists ((kk %s)) (and (select %s kk) (= (select %s kk) %s)))", mi.ksort, dom, vrow, r)
+					}
+					var locs []Loc
+					if x.Name == "*" {
+						locs = c.objectLocs(S, "?")
+					} else {
+						obj, path := lookupFieldAnyPkg(S, x.Name)
+						if obj == nil {
+							c.fail("modifies: no field %s in %s", x.Name, S)
+						}
+						cur := S
+						wrap := func(r string) string { return r }
+						for _, idx := range path[:len(path)-1] {
+							prev, cs, ci := wrap, cur, idx
+							wrap = func(r string) string { return c.subRef(cs, ci, prev(r)) }
+							cur = cur.Underlying().(*types.Struct).Field(idx).Type()
+						}
+						f := cur.Underlying().(*types.Struct).Field(path[len(path)-1])
+						var keys []Leaf
+						for _, l := range c.leaves(f.Type()) {
+							keys = append(keys, Leaf{"F|" + c.structKey(cur) + "." + f.Name() + l.Path, l.Sort, l.T})
+						}
+						locs = []Loc{{Kind: "field", Keys: keys}}
+						in = func(r string) string {
+							return fmt.Sprintf("(exists ((kk %s)) (and (select %s kk) (= %s %s)))", mi.ksort, dom, wrap("(select "+vrow+" kk)"), r)
+						}
+					}
+					for i := range locs {
+						if locs[i].Ref != "?" && locs[i].Ref != "" {
+							c.fail("modifies: m[_].* over embedded structs is not supported")
+						}
+						locs[i].Kind = "fieldset"
+						locs[i].In = in
+					}
+					return locs
+				}
+			}
+		}
 		if x.Name == "*" {
 			v := env.eval(x.X)
 			return c.objectLocs(derefT(v.T), v.L[0])
@@ -905,7 +1042,17 @@ func (c *Ctx) havocLoc(st *State, loc Loc) {
 			if strings.HasSuffix(k.Path, "#len") || strings.HasSuffix(k.Path, "#off") {
 				c.assume("true", app("bvult", nv, lenBound))
 			}
-			c.setComp(st, k.Path, sort, tStore(cur, loc.Ref, nv))
+			// a designator that evaluates to nil denotes no location
+			c.setComp(st, k.Path, sort, tStore(cur, loc.Ref, tIte(tEq(loc.Ref, "null"), tSel(cur, loc.Ref), nv)))
+		}
+	case "fieldset":
+		for _, k := range loc.Keys {
+			sort := arrSort(SRef, k.Sort)
+			cur := c.comp(st, k.Path, sort)
+			nv := c.freshComp(k.Path, sort)
+			c.assume("true", fmt.Sprintf("(forall ((r Ref)) (! (=> (not %s) (= (select %s r) (select %s r))) :pattern ((select %s r))))", loc.In("r"), nv, cur, nv))
+			c.compSort[k.Path] = sort
+			st.heap[k.Path] = nv
 		}
 	case "map":
 		for _, k := range loc.Keys {
@@ -915,7 +1062,7 @@ func (c *Ctx) havocLoc(st *State, loc Loc) {
 			if strings.HasPrefix(k.Path, "ML|") {
 				c.assume("true", app("bvult", nv, lenBound))
 			}
-			c.setComp(st, k.Path, sort, tStore(cur, loc.Ref, nv))
+			c.setComp(st, k.Path, sort, tStore(cur, loc.Ref, tIte(tEq(loc.Ref, "null"), tSel(cur, loc.Ref), nv)))
 		}
 	case "elems":
 		for _, k := range loc.Keys {
@@ -1281,6 +1428,27 @@ func (c *Ctx) locWrites(e Expr, tenv map[string]types.Type, pkg *types.Package, 
 			}
 		}
 	case *ESel:
+		if ix, ok := x.X.(*EIndex); ok {
+			if id, ok := ix.I.(*EIdent); ok && id.Name == "_" {
+				if mt := c.specType(ix.X, tenv, pkg); mt != nil {
+					if m, ok := mt.Underlying().(*types.Map); ok {
+						S := derefT(m.Elem())
+						if x.Name == "*" {
+							c.wsStruct(S, out)
+							return
+						}
+						if obj, path := lookupFieldAnyPkg(S, x.Name); obj != nil {
+							cur := S
+							for _, idx := range path[:len(path)-1] {
+								cur = cur.Underlying().(*types.Struct).Field(idx).Type()
+							}
+							c.wsField(cur, path[len(path)-1], out)
+							return
+						}
+					}
+				}
+			}
+		}
 		bt := c.specType(x.X, tenv, pkg)
 		if bt != nil {
 			S := derefT(bt)
@@ -1464,6 +1632,24 @@ func (fr *Frame) loopEnv(li *loopInfo, st *State, phiVals map[*ssa.Phi]Val, R st
 // bindLocals makes source-level local variable names available to loop invariants.
 func (fr *Frame) bindLocals(vars map[string]Val, st *State, li *loopInfo) {
 	c := fr.c
+	if li == nil && fr.curBlock != nil {
+		// outside loops: the most recent reference to the name in a block dominating the current one
+		for name, recs := range fr.refs {
+			if _, dup := vars[name]; dup {
+				continue
+			}
+			for i := len(recs) - 1; i >= 0; i-- {
+				if recs[i].blk == fr.curBlock || recs[i].blk.Dominates(fr.curBlock) {
+					if v, ok := fr.vals[recs[i].v]; ok {
+						vars[name] = v
+					} else if k, isConst := recs[i].v.(*ssa.Const); isConst {
+						vars[name] = c.constVal(k)
+					}
+					break
+				}
+			}
+		}
+	}
 	for _, b := range fr.fn.Blocks {
 		for _, ins := range b.Instrs {
 			switch t := ins.(type) {
@@ -1569,7 +1755,7 @@ func (c *Ctx) frameFormula(key, alloc string, locs []Loc, v1, v0 string) string 
 	}
 	var exc []string
 	for _, l := range locs {
-		exc = append(exc, tEq("r", l.Ref))
+		exc = append(exc, l.refIn("r"))
 	}
 	return fmt.Sprintf("(forall ((r Ref)) (! (=> (and (select %s r) (not %s)) (= (select %s r) (select %s r))) :pattern ((select %s r))))", alloc, tOr(exc...), v1, v0, v1)
 }
